@@ -1,5 +1,146 @@
-/- C02 — property theorems (to be written). -/
-import SoundeventModel.Basic
+/-
+  C02 — a saved AOEF document is closed under reference, its identifiers are unique, parents come
+  first in the sequence list, and it defines exactly the reachable objects.
+-/
+import Proofs.Lemmas.AoefC02Keys
+import Proofs.Lemmas.AoefC02Reach
+import Proofs.Lemmas.AoefC02Closed
+import Proofs.C02Adapter
 namespace SE.Proofs.C02
+open SE SE.Paths SE.Aoef
+
+/-! ### the example collection of the non-vacuity checks
+
+An annotation project with
+  * a task whose status badge is owned by a user reachable only there,
+  * a project tag reachable only there,
+  * a clip annotation with a sequence annotation whose sequence has a parent. -/
+
+def exRec : Recording :=
+  { uuid := "r1", path := ⟨"/", ["a", "x.wav"]⟩, duration := "1.0", channels := "1", samplerate := "8000",
+    tags := [⟨"site", "A"⟩], owners := [{ uuid := "u-owner" }] }
+def exClip : Clip := { uuid := "c1", recording := exRec, start_time := "0", end_time := "1" }
+def exSe1 : SoundEvent := { uuid := "se1", recording := exRec }
+def exSe2 : SoundEvent := { uuid := "se2", recording := exRec, geometry := some "g" }
+def exParent : SeqNode := { uuid := "sq-parent", sound_events := [exSe1] }
+def exSeq : Sequence := ⟨{ uuid := "sq-child", sound_events := [exSe2] }, [exParent]⟩
+def exSqa : SequenceAnnotation :=
+  { uuid := "sqa1", sequence := exSeq, tags := [⟨"species", "x"⟩], created_on := "t" }
+def exCa : ClipAnnotation :=
+  { uuid := "ca1", clip := exClip, sequences := [exSqa], tags := [⟨"site", "A"⟩], created_on := "t" }
+def exTask : AnnotationTask :=
+  { uuid := "t1", clip := exClip, created_on := "t",
+    status_badges := [{ state := "completed", owner := some { uuid := "u-badge" }, created_on := "t" }] }
+def ex : Collection :=
+  .annotationProject
+    { uuid := "ap", clip_annotations := [exCa], created_on := "t", name := "n",
+      annotation_tags := [⟨"project", "only"⟩], tasks := [exTask] }
+
+theorem ex_wfB : wfB ex = true := by decide +kernel
+theorem ex_wf : WF ex := WF_of_wfB ex_wfB
+/-- the saved document of the example -/
+def exDoc : Doc := match save ex none with | .ok d => d | .error _ => default
+theorem ex_saved : save ex none = .ok exDoc := by decide +kernel
+
+/-- a hand-written document with a dangling tag reference: `closed` is not trivially true -/
+def exDangling : Doc :=
+  { collection_type := "annotation_set", uuid := "as",
+    tags := some [⟨0, "site", "A"⟩],
+    recordings := some [{ uuid := "r1", path := ⟨"", ["x.wav"]⟩, duration := "1", channels := "1",
+                          samplerate := "8000", tags := some [0, 7] }] }
+example : closed exDangling = false := by decide +kernel
+example : unique exDangling = true := by decide +kernel
+example : closed exDoc = true ∧ unique exDoc = true ∧ parentFirst exDoc = true := by decide +kernel
+/-- the badge owner, the project tag and the parent sequence are all defined in the example -/
+example : "u-badge" ∈ defs exDoc .user ∧ "project\u0000only" ∈ tagDefKeys exDoc
+    ∧ defs exDoc .sequence = ["sq-parent", "sq-child"] := by decide +kernel
+
+/-! ### the traversal is exactly the set of reachable objects -/
+
+theorem C02_trav_iff_reachable (c : Collection) (o : Obj) : o ∈ c.trav ↔ Reachable c o :=
+  ⟨mem_trav_reachable c o, reachable_mem_trav c o⟩
+
+/-- the objects defined are exactly the distinct reachable objects: nothing reachable is missing,
+    nothing unreachable is written (no well-formedness hypothesis is needed) -/
+theorem C02_exact (c : Collection) (dir : Option PPath) (d : Doc) (h : save c dir = .ok d) :
+    ∀ k, ∀ key, key ∈ (if k = .tag then tagDefKeys d else defs d k) ↔ key ∈ reachKeys c.trav k := by
+  obtain ⟨rs, hrs, spec⟩ := save_spec h
+  intro k key
+  by_cases hk : k = .tag
+  · subst hk
+    rw [if_pos rfl]
+    unfold tagDefKeys
+    rw [spec.tags, encTags_contents (tagTable c.trav) (fun k v => s!"{k}\u0000{v}")]
+    simp only [reachKeys, List.mem_map, mem_tagTable, mem_tagsOf]
+  · rw [if_neg hk, defs_eq_srcKeys hrs spec k]
+    exact srcKeys_mem hk
+
+example : ∃ d, save ex none = .ok d := ⟨_, ex_saved⟩
+
+/-- in terms of objects: a key is defined iff it is the key of a reachable object of that kind -/
+theorem C02_exact_reachable (c : Collection) (dir : Option PPath) (d : Doc) (h : save c dir = .ok d)
+    (u : Atom) : u ∈ defs d .user ↔ ∃ x : User, Reachable c (.user x) ∧ x.uuid = u := by
+  have := C02_exact c dir d h .user u
+  rw [if_neg (by decide)] at this
+  rw [this]
+  simp only [reachKeys, List.mem_map, mem_usersOf, C02_trav_iff_reachable]
+
+/-! ### the sequence list: parents first -/
+
+theorem C02_parent_first (c : Collection) (dir : Option PPath) (d : Doc) (h : save c dir = .ok d) :
+    parentFirst d = true := by
+  obtain ⟨rs, _, spec⟩ := save_spec h
+  unfold parentFirst
+  rw [spec.seqs]
+  exact parentFirstAux_trav c
+
+example : ∃ d, save ex none = .ok d := ⟨_, ex_saved⟩
+
+/-! ### the tag table -/
+
+theorem C02_tag_ids_dense (c : Collection) (dir : Option PPath) (d : Doc) (h : save c dir = .ok d) :
+    (lst d.tags).map (·.id) = List.range (lst d.tags).length := by
+  obtain ⟨rs, _, spec⟩ := save_spec h
+  rw [spec.tags, encTags_ids, encTags_length]
+
+/-- ids are allocated per distinct (label, value): two tag objects of a saved document with the same
+    key and value are the same entry -/
+theorem C02_tag_ids_by_content (c : Collection) (dir : Option PPath) (d : Doc) (h : save c dir = .ok d) :
+    ∀ t1 ∈ lst d.tags, ∀ t2 ∈ lst d.tags, t1.key = t2.key → t1.value = t2.value → t1 = t2 := by
+  obtain ⟨rs, _, spec⟩ := save_spec h
+  rw [spec.tags]
+  intro t1 h1 t2 h2 hk hv
+  exact encTags_by_content (tagTable_nodup _) h1 h2 hk hv
+
+example : (lst exDoc.tags).map (fun t => (t.id, t.key, t.value))
+    = [(0, "site", "A"), (1, "project", "only"), (2, "species", "x")] := by decide +kernel
+
+/-! ### identifiers are unique -/
+
+theorem C02_unique (c : Collection) (dir : Option PPath) (d : Doc) (hwf : WF c) (h : save c dir = .ok d) :
+    unique d = true := by
+  obtain ⟨rs, hrs, spec⟩ := save_spec h
+  unfold unique
+  rw [List.all_eq_true]
+  intro k _
+  unfold uniqueAt
+  rw [nodupB_iff, defs_eq_srcKeys hrs spec k]
+  exact srcKeys_nodup hwf k
+
+example : WF ex ∧ ∃ d, save ex none = .ok d := ⟨ex_wf, _, ex_saved⟩
+
+/-! ### closed under reference -/
+
+/-- every identifier mentioned anywhere in a saved document is defined in the list of its kind
+    (no well-formedness hypothesis is needed) -/
+theorem C02_closed_any (c : Collection) (dir : Option PPath) (d : Doc) (h : save c dir = .ok d) :
+    closed d = true := by
+  obtain ⟨rs, S⟩ := saved_of_save h
+  exact S.doc_closed
+
+theorem C02_closed (c : Collection) (dir : Option PPath) (d : Doc) (_hwf : WF c) (h : save c dir = .ok d) :
+    closed d = true := C02_closed_any c dir d h
+
+example : WF ex ∧ ∃ d, save ex none = .ok d := ⟨ex_wf, _, ex_saved⟩
 
 end SE.Proofs.C02
